@@ -440,4 +440,12 @@ def run(ctx, prog):
         rng = sorted(set(re.findall(r'(\w+::NORMALIZATION_NORM_SQ_M(?:IN|AX))', ' '.join(p_ for i_, blk in enumerate(nz.blocks) if blk['t']['k'] == 'switch'
                                                                                               for tg, p_ in flow.switch_edge_predicates(nz, i_, on)))))
         ctx.inst('C02.R7', nz.short, 'range bounds are the named constants', len(rng) == 2, 'bounds: %s' % rng)
+    # ------------------------------------------------------------------ R8 nothing is logged that the index then refuses
+    # replay applies Insert(new) and then the compensating Delete: for an overwrite that is NOT the live state (the previous version is still live, but gone after
+    # the restart). So every rejection class of the index must be refused before the log append — the C03.R1 table, shared
+    from rules import C03 as _C03
+    from kvstatic.effects import Effects as _Eff8
+    eff8 = _Eff8(prog)
+    eff8.define('wal_append', 'WalWriter::append', 'WalWriter::append_batch')
+    _C03.rejection_classes(ctx, prog, 'C02.R8', eff8)
     ctx.stat('functions_analysed', len(set(i['key'].split(' | ')[1] for i in ctx.instances)))
